@@ -34,6 +34,7 @@ func runC18(c *Ctx) {
 	c.rule("C18.4", func() { c18Alloc(c) })
 	c.rule("C18.5", func() { c18Bounds(c) })
 	c.rule("C18.6", func() { c18BodyThroughCancelingReader(c) })
+	c.rule("C18.7", func() { c18Guarded(c) })
 }
 
 func c18Nil(c *Ctx) {
